@@ -14,7 +14,7 @@ import (
 func init() {
 	register(&Prop{
 		ID:          "C06",
-		Decided:     "(1) operator tables: every case of expr.compareFloats/compareStrings denotes its relation under all orderings (NaN unordered); every operator the property names (+ - * /, the six comparisons with aliases, AND/OR/NOT, LIKE, IS) is accepted by the tokenizer's tables and has a case in each evaluator switch of its kind; (2) NULL discipline: in evaluateOperatorValue no arithmetic is reachable once an operand is NULL and the result is then NULL; in compareValues a NULL operand yields false for every non-IS operator before any numeric/string comparison; (3) built-in functions cannot take the caller down: every call of Function.Execute outside its own package is dominated by a successful Validate of the same function and arguments, or runs inside a frame that converts panics to errors, or is the one reviewed exception; in every Execute body a constant index args[k] is below the lower bound of len(args) implied by the constructor's minArgs (when Validate checks the count) and by dominating len(args) tests; argument-derived type assertions are comma-ok; (4) history independence, structural part: the mutated fields of the process-wide ExprBridge and FunctionRegistry are exactly the reviewed caches (a new process-wide cache fails); (5) both evaluators and the stream resolve functions only through the registry (the registry map is touched only by registry methods). Also: a process-wide cache stores the result of a fallible computation only after its error was found nil; the direct function-call path cuts an argument list only out of text that is one whole call. Also: in package functions a failing run of a program obtained from the bridge's process-wide compile cache (compiled against another row's value types) is always followed by the evaluation against the row itself (expr.Eval) before an error is returned (flow/cached-program-failure-falls-back).",
+		Decided:     "(1) operator tables: every case of expr.compareFloats/compareStrings denotes its relation under all orderings (NaN unordered); every operator the property names (+ - * /, the six comparisons with aliases, AND/OR/NOT, LIKE, IS) is accepted by the tokenizer's tables and has a case in each evaluator switch of its kind; (2) NULL discipline: in evaluateOperatorValue no arithmetic is reachable once an operand is NULL and the result is then NULL; in compareValues a NULL operand yields false for every non-IS operator before any numeric/string comparison; (3) built-in functions cannot take the caller down: every call of Function.Execute outside its own package is dominated by a successful Validate of the same function and arguments, or runs inside a frame that converts panics to errors, or is the one reviewed exception; in every Execute body a constant index args[k] is below the lower bound of len(args) implied by the constructor's minArgs (when Validate checks the count) and by dominating len(args) tests; argument-derived type assertions are comma-ok; (4) history independence, structural part: the mutated fields of the process-wide ExprBridge and FunctionRegistry are exactly the reviewed caches (a new process-wide cache fails); (5) both evaluators and the stream resolve functions only through the registry (the registry map is touched only by registry methods). Also: a process-wide cache stores the result of a fallible computation only after its error was found nil; the direct function-call path cuts an argument list only out of text that is one whole call. Also: in package functions a failing run of a program obtained from the bridge's process-wide compile cache (compiled against another row's value types) is always followed by the evaluation against the row itself (expr.Eval) before an error is returned (flow/cached-program-failure-falls-back). Also: the key of every Load/Store on a text-keyed sync.Map memo in package functions is the function's own text parameter, unmodified (or a concatenation containing it): two different expressions never share an entry of a process-wide cache (flow/memo-key-is-the-input).",
 		NotDecided:  "arithmetic, precedence, CASE branch selection, every function's documented value, agreement of the three evaluators on values, independence from the process-wide program cache (expr-lang internals), dynamic indices and slices inside Execute bodies.",
 		Assumptions: []string{"expr-lang's vm.Run converts a panic of a called function into an error (read in the module cache, vm.go: defer/recover in Run)"},
 		Run:         runC06,
@@ -212,6 +212,7 @@ func runC06(a *A) {
 	a.Rule("ownmap/shared-state", 5, func() { a.ruleSharedState() })
 	a.Rule("flow/pooled-map-cleared", 1, func() { a.rulePooledMapsModule() })
 	a.Rule("flow/cache-stores-success-only", 4, func() { a.ruleCacheStoresSuccessOnly() })
+	a.Rule("flow/memo-key-is-the-input", 4, func() { a.ruleMemoKeyIsTheInput() })
 	a.Rule("flow/cached-program-failure-falls-back", 1, func() { a.ruleCachedProgramFailureFallsBack() })
 	a.Rule("tables/null-safe-predicates", 2, func() { a.ruleNullSafePredicates() })
 	a.Rule("shape/whole-call-slice", 1, func() { a.ruleWholeCallSlice("stream") })
@@ -804,6 +805,63 @@ func (a *A) ruleCachedProgramFailureFallsBack() int {
 	}
 	if n == 0 {
 		a.anchorFail("no expr.Run of a cached program found in package functions")
+	}
+	return n
+}
+
+// ruleMemoKeyIsTheInput: the bridge memoizes per expression text (preprocessed text, compiled
+// program) in process-wide sync.Maps. A memo is only right if distinct inputs have distinct keys: the
+// key of every Load/Store/LoadOrStore on a sync.Map field in package functions is the function's own
+// string parameter, unmodified — a key computed from the text (case- or whitespace-folded, trimmed,
+// hashed) lets two different expressions share one entry, and the answer depends on which was seen
+// first (`'  '` and `' '` inside a literal differ only in whitespace).
+func (a *A) ruleMemoKeyIsTheInput() int {
+	n := 0
+	for _, fn := range a.ModFuncs {
+		if fn.Pkg != a.Pkg("functions") || fn.Blocks == nil {
+			continue
+		}
+		allInstrs(fn, func(in ssa.Instruction) {
+			cc := callCommon(in)
+			if cc == nil {
+				return
+			}
+			callee := cc.StaticCallee()
+			if callee == nil || callee.Signature.Recv() == nil || !isNamedType(callee.Signature.Recv().Type(), "sync", "Map") || len(cc.Args) < 2 {
+				return
+			}
+			switch callee.Name() {
+			case "Load", "Store", "LoadOrStore", "LoadAndDelete", "Delete":
+			default:
+				return
+			}
+			if _, ok := cc.Args[0].(*ssa.FieldAddr); !ok {
+				return
+			}
+			key := cc.Args[1]
+			if mi, ok := key.(*ssa.MakeInterface); ok {
+				key = mi.X
+			}
+			if b, ok := key.Type().Underlying().(*types.Basic); !ok || b.Kind() != types.String {
+				return // not a text-keyed memo
+			}
+			n++
+			// the text itself, or a concatenation that contains it unmodified (a type tag in front of it)
+			var hasParam func(v ssa.Value, d int) bool
+			hasParam = func(v ssa.Value, d int) bool {
+				if _, ok := v.(*ssa.Parameter); ok {
+					return true
+				}
+				if bo, ok := v.(*ssa.BinOp); ok && bo.Op == token.ADD && d < 4 {
+					return hasParam(bo.X, d+1) || hasParam(bo.Y, d+1)
+				}
+				return false
+			}
+			isParam := hasParam(key, 0)
+			a.Check(isParam, fmt.Sprintf("%s#%s(%s)-key", fname(fn), callee.Name(), TermOf(cc.Args[0], nil).String()), in.Pos(),
+				"the memo key is the function's text parameter itself",
+				"the memo key is "+TermOf(key, nil).String()+", computed from the text instead of being the text: two different expressions can share one entry of the process-wide cache, and which answer a query gets depends on what was evaluated before")
+		})
 	}
 	return n
 }
